@@ -365,6 +365,15 @@ Section Cover.
       try (change (63 + 1) with 64; lia).
   Qed.
 
+  Lemma top_emitted cs c : compute_geo_range_top dlon dlat q cb = Some cs -> In c cs ->
+    cell_inv (c_start c) (c_res c) /\
+    relate (c_start c) (c_start c + 2 ^ c_res c - 1) (c_res c) = Emit (c_on_boundary c).
+  Proof.
+    unfold compute_geo_range_top. rewrite geo_top_shift_val. intros Hc Hin.
+    destruct (compute_emitted geo_range_fuel 0 63 cs c node_inv_top Hc Hin) as (A & _ & _ & _ & F).
+    split; assumption.
+  Qed.
+
   (* the same in terms of what is in the index: a document holding the point holds an emitted term,
      and that term survives the isIndexed probe if the dictionary contains it *)
   Theorem cover_complete_terms cs h (is_indexed : bytes -> bool) :
@@ -375,16 +384,16 @@ Section Cover.
   Proof.
     intros Hc Hh Hin Hix.
     destruct (cover_complete cs h Hc Hh Hin) as (c & Hcin & Hcov & Hres).
-    pose proof Hc as Hc'. unfold compute_geo_range_top in Hc'. rewrite geo_top_shift_val in Hc'.
-    destruct (compute_emitted _ _ _ _ c node_inv_top Hc' Hcin) as ((Hr & Hs & Hm & Hb) & _).
+    destruct (top_emitted cs c Hc Hcin) as ((Hr & Hs & Hm & Hb) & _).
     destruct (encode_total_geo h (c_res c) Hres) as [t Ht].
     pose proof (index_term_in h (c_res c) t Hres Ht) as Hti.
     pose proof (pow2_pos (c_res c) ltac:(lia)).
-    rewrite (cover_term c h Hcov Hh ltac:(lia)) in Ht.
+    assert (Hct : cell_term c = Some t) by (rewrite <- (cover_term c h Hcov Hh ltac:(lia)); exact Ht).
     exists t. split; [exact Hti|].
+    generalize dependent (geo_index_terms h). intros gi Hix Hti.
     unfold on_boundary_terms, not_on_boundary_terms.
     destruct (c_on_boundary c) eqn:Eb; [left|right]; apply in_flat_map; exists c; (split; [exact Hcin|]);
-      rewrite Ht, Eb, (Hix t Hti); left; reflexivity.
+      rewrite Hct, Eb, (Hix t Hti); left; reflexivity.
   Qed.
 
   (* ----- (b) soundness: a not-on-boundary cell lies entirely inside the rectangle ----- *)
@@ -393,8 +402,8 @@ Section Cover.
     compute_geo_range_top dlon dlat q cb = Some cs -> In c cs -> c_on_boundary c = false ->
     covers c h = true -> inside h = true.
   Proof.
-    intros Hcb Hc Hin Hnb Hcov. unfold compute_geo_range_top in Hc. rewrite geo_top_shift_val in Hc.
-    destruct (compute_emitted _ _ _ _ c node_inv_top Hc Hin) as (Hci & _ & _ & _ & Hrel).
+    intros Hcb Hc Hin Hnb Hcov.
+    destruct (top_emitted cs c Hc Hin) as (Hci & Hrel).
     destruct c as [s r b]. cbn [c_start c_res c_on_boundary] in *. subst b.
     apply covers_iff in Hcov; [|destruct Hci; lia|destruct Hci as (_ & _ & Hm & _); exact Hm].
     unfold relate_action, relate_rect in Hrel.
@@ -649,7 +658,7 @@ Example ex_walk_inside :
   let h := morton (scale_lon_exact 80 (Z.shiftl (5 * D) 80)) (scale_lat_exact 80 (Z.shiftl (5 * D) 80)) in
   inside (lon_S 80) (lat_S 80) ex_box h = true /\
   option_map (option_map (fun c => (c_res c, c_on_boundary c))) (point_walk_top (lon_S 80) (lat_S 80) ex_box true h)
-  = Some (Some (54, false)).
+  = Some (Some (45, false)).
 Proof. vm_compute. split; reflexivity. Qed.
 
 Example ex_walk_boundary :
@@ -661,7 +670,7 @@ Proof. vm_compute. split; reflexivity. Qed.
 
 Example ex_range_small :
   option_map (fun cs => (length cs, length (filter c_on_boundary cs)))
-             (compute_geo_range_top (lon_S 80) (lat_S 80) ex_small_box true) = Some (1%nat, 1%nat).
+             (compute_geo_range_top (lon_S 80) (lat_S 80) ex_small_box true) = Some (2%nat, 2%nat).
 Proof. vm_compute. reflexivity. Qed.
 
 Example ex_dateline :
